@@ -356,6 +356,30 @@ PROPS = {
         "level_text": "Random histories covering all seven generation paths with exact timestamps; counterexample search, not proof.",
         "level_note": "Trusts testing/synctest, the in-memory State and the expected-RA builder advCfg.expect.",
     },
+    "C17": {
+        "pkg": "internal/corerad",
+        "files": ["shared/zz_verif_doc_test.go", "corerad/zz_verif_C12_test.go", "corerad/zz_verif_sim_test.go", "corerad/zz_verif_adv_test.go", "corerad/zz_verif_mon_test.go", "corerad/zz_verif_C06_test.go", "corerad/zz_verif_C04_test.go", "corerad/zz_verif_C17_test.go"],
+        "run": "TestVerif_C17",
+        "level": "exploration",
+        "bubble": True,
+        "quick": {"shards": 8},
+        "thorough": {"shards": 16},
+        "rule": ("accepted TOML configurations from the shared document model (every stanza kind incl. pref64, wildcards, deprecated entries, 1..3 interfaces, "
+                 "debug section on/off) parsed by config.Parse, wired exactly as cmd/corerad/main.go does (the same config.Interface values for "
+                 "Metrics, the crhttp handler and the advertisers), advertisers running in a synctest bubble against a dialer that only succeeds from "
+                 "a generated instant (never / at once / after up to 8 s), link events (re-initialisation), forwarding flips, address/route source "
+                 "failures; 2..8 probes at generated instants (t=0, around the instant the interface comes up, later), each probe = one const-metric "
+                 "scrape with fresh collectors + GET /_/api/interfaces + /metrics + /debug/pprof/, plus one real PedanticRegistry.Gather per case. "
+                 "Oracle: no panic and every call returns; /metrics and /debug/pprof/ are 404 unless enabled; when every advertising interface has "
+                 "been initialised, the samples (one per prefix/route/RDNSS/DNSSL option with flags and seconds, the four interface gauges, the "
+                 "misconfiguration gauge) and the JSON (header fields, every option kind incl. PREF64) equal the RA computed from the document model "
+                 "and the system state at that instant; before that an error is accepted. Non-trivial: a pref64 stanza, or a wildcard/deprecated "
+                 "stanza observed at >= 2 lifecycle points. Distinct: FNV-64 of the canonical JSON case."),
+        "assumptions": [STAGED, BUBBLE, FAKES],
+        "technique": "rapid property-based testing of configurations x lifecycle points x interleaved scrapes/API requests on virtual time against the reference RA builder",
+        "level_text": "Generated configurations probed at generated lifecycle instants and compared with an independently computed RA; counterexample search, not proof.",
+        "level_note": "Trusts expectRA/reference (shared document model), testing/synctest, and plugin wrappers whose Prepare injects simulated address/route sources; series with duplicate label identities are unspecified.",
+    },
 }
 
 NOT_APPLICABLE = {}
